@@ -111,6 +111,16 @@ def visit2 (c : Cfg) (a b : V α) : Except Err ((Nat × α) × (Nat × α)) :=
     | _, .error e => .error e
   | .ok _ => .error (.pre "visit: arity")
 
+/-- `etl::visit(f, vs...)` / `etl::visit_with_index(f, vs...)` over any number of arguments, every argument with its
+    OWN number of alternatives: `vs` lists `(variant_size<V_k>(), v_k)` (a non-variant argument has size 1 and index 0).
+    The dispatch runs over `index_sequence<variant_size<Vs>()...>` and `tuple(index(vs)...)`; the visitor is called with
+    `get<Is>(vs)...` for the tuple `Is...` it stops at, every `get` behind the `I == index()` check.  Result: the
+    `(I, value)` the visitor receives for each argument. -/
+def visitN (vs : List (Nat × V α)) : Except Err (List (Nat × α)) := do
+  let t ← visitWithIndex (vs.map (·.1)) (vs.map (·.2.idx))
+  if t.length ≠ vs.length then .error (.pre "visit: arity")
+  else (vs.zip t).mapM fun (v, i) => (getAt v.2 i).map fun x => (i, x)
+
 /-- `variant::destroy()`: `visit([](auto& v){ destroy_at(&v); }, *this)` -/
 def destroy (c : Cfg) (v : V α) : Except Err Unit := (visit1 c v).map fun _ => ()
 
